@@ -364,6 +364,12 @@ const unsigned char *ares_buf_tag_fetch(const ares_buf_t *buf, size_t *len)
     return NULL;
   }
 
+  /* A buffer that never held any data has no data pointer yet, pointer
+   * arithmetic on NULL is undefined behavior */
+  if (buf->data == NULL) {
+    return NULL;
+  }
+
   *len = buf->offset - buf->tag_offset;
   return buf->data + buf->tag_offset;
 }
